@@ -329,9 +329,17 @@ def seeded(args):
         ids = [i for i in ids if i in args]
     t0 = time.time()
     missed = 0
+    out_of_reach = 0
     out_all = {}
+    if not args and os.path.exists(os.path.join(base, "last_results.json")):
+        pass
     for i in ids:
         meta = json.load(open(os.path.join(base, i, "meta.json")))
+        if meta.get("out_of_reach") and i not in args:
+            # documented limit of the technique (DESIGN section 11): listed, not run, not counted as caught
+            print(f"{i:28s} OUT-OF-REACH (documented): {meta['out_of_reach'][:150]}")
+            out_of_reach += 1
+            continue
         sc = Scratch()
         try:
             rc, out, err = sh(["git", "apply", "--unsafe-paths", "--directory", sc.repo, os.path.join(base, i, "patch.diff")], cwd="/")
@@ -362,8 +370,11 @@ def seeded(args):
         finally:
             sc.close()
     if os.path.isdir(base):
-        json.dump(out_all, open(os.path.join(base, "last_results.json"), "w"), indent=1)
-    print(f"seeded: {len(ids)} changes, {missed} misses ({time.time() - t0:.0f}s)")
+        lr = os.path.join(base, "last_results.json")
+        merged = json.load(open(lr)) if (args and os.path.exists(lr)) else {}
+        merged.update(out_all)
+        json.dump(merged, open(lr, "w"), indent=1)
+    print(f"seeded: {len(ids)} changes, {missed} misses, {out_of_reach} documented as out of reach ({time.time() - t0:.0f}s)")
     return 1 if missed else 0
 
 
